@@ -45,3 +45,7 @@ for bn in (0, 2, 3):
 OBS.append(Ob(['C02'], 'ser_pretty', 'doc', 'harness/doc_ser.c', 'h_pretty', unwind=12, desc='serializeJsonPretty([i,["s"],[]], buf, cap) and measureJsonPretty: exact layout (CRLF, 2-space indentation, [] for empty), count/prefix/guard/NUL for every capacity', bound='i in -128..127, the string byte (all 256 values), capacity 0..length+2', **dict(K3, hunwind=76)))
 for eq in (0,):   # the equal case (shared node) gave no verdict; sharing is decided by the dedup_* obligations
     OBS.append(Ob(['C14', 'C06'], 'shared_strings_%s' % ('equal' if eq else 'different'), 'doc', 'harness/doc_hist.c', 'h_shared_strings', defs=['EQ=%d' % eq], unwind=8, desc='add s, add t (copied, %s), remove(0): survivor intact; equal strings stored once; block released when the last user goes; all blocks returned' % ('equal strings' if eq else 'different strings'), bound='second byte(s) symbolic, first byte fixes equal/different', **H))
+for n1, n2 in [(1, 0), (0, 1), (1, 1)]:
+    OBS.append(Ob(['C18'], 'arr_eq_null_%d%d' % (n1, n2), 'doc', 'harness/doc_hist.c', 'h_arr_eq_null', defs=['N1NULL=%d' % n1, 'N2NULL=%d' % n2], unwind=8, desc='[x%s] == [z%s] in both operand orders: lengths count, a trailing null is an element' % (',null' if n1 else '', ',null' if n2 else ''), bound='all int32 x, z', **H))
+for ub, nm in [(0, 'JsonArrayConst'), (1, 'JsonObjectConst'), (2, 'JsonVariantConst')]:
+    OBS.append(Ob(['C04'], 'set_unbound_%d' % ub, 'doc', 'harness/doc_hist.c', 'h_set_unbound', defs=['UNB=%d' % ub], unwind=8, desc='adding an unbound %s to an array adds null (not [] / {})' % nm, bound='all int32 values', **H))
